@@ -132,7 +132,7 @@ func init() {
 			T := resAt(resT, i)
 			srt := x.c.sortOf(T)
 			fn := "decodeRequests_" + names[i]
-			x.c.P.declare(fn, fmt.Sprintf("(declare-fun %s (%s) %s)", fn, insort, srt))
+			declUF(x, fn, insort, srt) // contract files may declare decodeRequests_bridge themselves (A-el-ids)
 			t := sx(fn, in)
 			if i < 3 {
 				t = x.name(s, "dreq_"+names[i], srt, t)
